@@ -25,6 +25,12 @@ theorem node_content (g : G Label Hex) (n : Rd.VNode Label (List UInt8)) (h : n 
 theorem same_content_same_text (g1 g2 : G Label Hex) (h : Rd.SameContent (slotsOf g1) (slotsOf g2)) :
     toXml g1 = toXml g2 ∧ toDot g1 = toDot g2 := Rs.same_content_same_text g1 g2 h
 
+/-- the same across capacities: a graph with a larger capacity whose additional slots are absent and whose other
+    slots have the same content gives the same two texts -/
+theorem same_content_same_text_any_capacity (g1 g2 : G Label Hex) (pre extra : List (Rd.Slot Label (List UInt8)))
+    (h2 : slotsOf g2 = pre ++ extra) (hc : Rd.SameContent (slotsOf g1) pre) (he : ∀ s ∈ extra, s.present = false) :
+    toXml g1 = toXml g2 ∧ toDot g1 = toDot g2 := Rs.same_content_same_text_caps g1 g2 pre extra h2 hc he
+
 /-- the derived order of `Label` used for sorting is a strict total order -/
 theorem label_order_strict : Rd.StrictTotal LO.lt := labelOrder_strict
 
